@@ -1,79 +1,312 @@
-"""native replay for C43: random operation histories on a real PersistentDict with reopen, against a plain dict model"""
+"""native replay for C43: the counter-model's state / operation / history is run on a real PersistentDict in a temporary
+directory (real zict, msgpack, weakref.finalize, gc) next to the same dictionary model the contracts use, and the *same
+clause* is evaluated.  Top-level values are dicts {"v": [n]} with an ndarray, edited in place by appending to the list."""
+import copy
 import gc
-import random
+import itertools
 import tempfile
 
 import numpy as np
 
 from bluesky.utils import PersistentDict
 
-
-def history(model, info, art):
-    rng = random.Random(12345)
-    for trial in range(60):
-        with tempfile.TemporaryDirectory() as d:
-            pd = PersistentDict(d)
-            ref = {}
-            shadow = {}       # what is persisted
-            for step in range(25):
-                op = rng.choice(["set", "del", "pop", "popitem", "update", "setdefault", "clear", "mutate", "flush", "reopen"])
-                k = rng.choice("abcd")
-                v = rng.choice([rng.randint(0, 9), [rng.randint(0, 9)], {"n": rng.random()}, np.arange(3) * rng.randint(1, 4)])
-                try:
-                    if op == "set":
-                        pd[k] = v; ref[k] = v; shadow[k] = _copy(v)
-                    elif op == "del" and k in ref:
-                        del pd[k]; del ref[k]; del shadow[k]
-                    elif op == "pop" and k in ref:
-                        pd.pop(k); ref.pop(k); shadow.pop(k)
-                    elif op == "popitem" and ref:
-                        kk, _ = pd.popitem(); ref.pop(kk); shadow.pop(kk)
-                    elif op == "update":
-                        pd.update({k: v}); ref[k] = v; shadow[k] = _copy(v)
-                    elif op == "setdefault":
-                        pd.setdefault(k, v)
-                        if k not in ref:
-                            ref[k] = v; shadow[k] = _copy(v)
-                    elif op == "clear":
-                        pd.clear(); ref.clear(); shadow.clear()
-                    elif op == "mutate" and k in ref and isinstance(ref[k], list):
-                        pd[k].append(7)          # in place ...
-                        pd.flush()               # ... made persistent by flush (without flush: not decided, finalizer-dependent)
-                        shadow = {kk: _copy(vv) for kk, vv in ref.items()}
-                    elif op == "flush":
-                        pd.flush(); shadow = {kk: _copy(vv) for kk, vv in ref.items()}
-                    elif op == "reopen":
-                        del pd                      # one instance at a time: the old one is finalised first
-                        gc.collect()
-                        pd = PersistentDict(d)
-                        got = dict(pd)
-                        if not _same(got, shadow):
-                            return "confirmed", f"trial {trial} step {step}: reopened {got!r}, last written {shadow!r}"
-                        ref = dict(pd)
-                        shadow = {kk: _copy(vv) for kk, vv in ref.items()}
-                except Exception as e:
-                    return "confirmed", f"trial {trial} step {step} op {op}: {type(e).__name__}: {e}"
-            del pd
-            gc.collect()
-            got = dict(PersistentDict(d))
-            if not _same(got, shadow):
-                return "confirmed", f"trial {trial}: reopened {got!r}, last written {shadow!r}"
-    return "contradicted", "60 random histories: reopened content equals the last written values"
+_counter = itertools.count(1)
 
 
-def _copy(v):
-    import copy
-    return copy.deepcopy(v)
+def _value():
+    n = next(_counter)
+    return {"v": [n], "arr": np.arange(3) * n}
+
+
+def _same_value(x, y):
+    if isinstance(x, dict) and isinstance(y, dict):
+        return set(x) == set(y) and all(_same_value(x[k], y[k]) for k in x)
+    if isinstance(x, np.ndarray) or isinstance(y, np.ndarray):
+        return isinstance(x, np.ndarray) and isinstance(y, np.ndarray) and np.array_equal(x, y)
+    if isinstance(x, (list, tuple)) and isinstance(y, (list, tuple)):
+        return len(x) == len(y) and all(_same_value(a, b) for a, b in zip(x, y))
+    return type(x) is type(y) and x == y
 
 
 def _same(a, b):
-    if set(a) != set(b):
-        return False
-    for k in a:
-        x, y = a[k], b[k]
-        if isinstance(x, np.ndarray) or isinstance(y, np.ndarray):
-            if not np.array_equal(x, y):
-                return False
-        elif x != y:
-            return False
-    return True
+    return set(a) == set(b) and all(_same_value(a[k], b[k]) for k in a)
+
+
+class Machine:
+    """a real PersistentDict + the dictionary model (mem: what the mapping shows, written: what was last written)"""
+
+    def __init__(self, directory, state):
+        # as in the contracts: the directory already holds the state's keys (written by an earlier, cleanly closed
+        # instance), the instance under test is opened on it, then the 'dirty' values are edited in place
+        self.dir = directory
+        self.pd = PersistentDict(directory)
+        self.mem = {}
+        self.written = {}
+        self.reloaded = False
+        for k in state.get("keys", []):
+            self.apply(["set", k])
+        self.reopen("gc")
+        for k in state.get("dirty", []):
+            self.apply(["mutate", k])
+
+    def _set_model(self, k, v):
+        self.mem[k] = copy.deepcopy(v)        # the model never aliases the real objects
+        self.written[k] = copy.deepcopy(v)
+
+    def apply(self, op):
+        """-> (ok, detail): the operation's own result is what a dict gives"""
+        if op[0] == "reopen":
+            self.reopen(op[1])               # (before any local reference to the old instance is taken: one instance at a time)
+            return True, ""
+        pd, kind = self.pd, op[0]
+        k = op[1] if len(op) > 1 else None
+        if kind == "set":
+            v = _value()
+            pd[k] = v
+            self._set_model(k, v)
+            return True, ""
+        if kind == "reset":
+            pd[k] = pd[k]
+            self.written[k] = copy.deepcopy(self.mem[k])
+            return True, ""
+        if kind == "del":
+            del pd[k]
+            del self.mem[k], self.written[k]
+            return True, ""
+        if kind == "del-missing":
+            try:
+                del pd["zz"]
+            except KeyError:
+                return True, ""
+            return False, "del of an absent key did not raise KeyError"
+        if kind == "popitem":
+            if not self.mem:
+                try:
+                    pd.popitem()
+                except KeyError:
+                    return True, ""
+                return False, "popitem on an empty mapping did not raise KeyError"
+            kk, v = pd.popitem()
+            ok = kk in self.mem and _same_value(v, self.mem[kk])
+            self.mem.pop(kk, None)
+            self.written.pop(kk, None)
+            return ok, f"popitem returned {kk!r}: {v!r}"
+        if kind == "pop":
+            v = pd.pop(k)
+            ok = _same_value(v, self.mem[k])
+            del self.mem[k], self.written[k]
+            return ok, f"pop returned {v!r}"
+        if kind == "pop-missing-default":
+            d = object()
+            return pd.pop("zz", d) is d, "pop with default"
+        if kind == "pop-missing":
+            try:
+                pd.pop("zz")
+            except KeyError:
+                return True, ""
+            return False, "pop of an absent key did not raise KeyError"
+        if kind == "clear":
+            pd.clear()
+            self.mem.clear()
+            self.written.clear()
+            return True, ""
+        if kind == "update":
+            src = {kk: _value() for kk in op[1]}
+            pd.update(src)
+            for kk, v in src.items():
+                self._set_model(kk, v)
+            return True, ""
+        if kind == "setdefault":
+            v = _value()
+            r = pd.setdefault(k, v)
+            if k in self.mem:
+                return _same_value(r, self.mem[k]), f"setdefault on an existing key returned {r!r}"
+            self._set_model(k, v)
+            return r is v, "setdefault on a new key"
+        if kind == "mutate":
+            v = pd[k]
+            v["v"].append(next(_counter))
+            v["arr"] = np.arange(3) * next(_counter)   # (arrays loaded from msgpack are read-only: the entry is replaced)
+            self.mem[k] = copy.deepcopy(v)   # contents the mapping must show now (the model does not alias the real objects)
+            return True, ""
+        if kind == "flush":
+            r = pd.flush()
+            self.written = copy.deepcopy(self.mem)
+            return r is None, "flush"
+        if kind == "reload":
+            r = pd.reload()
+            self.mem = copy.deepcopy(self.written)
+            self.reloaded = True
+            return r is None, "reload"
+        if kind == "read":
+            ok = "zz" not in pd and pd.get("zz") is None and all(kk in pd for kk in self.mem)
+            try:
+                pd["zz"]
+                ok = False
+            except KeyError:
+                pass
+            return ok, "reads"
+        raise ValueError(op)
+
+    # ---- the clauses
+    def shown(self):
+        pd = self.pd
+        ks = list(pd)
+        return {kk: pd[kk] for kk in ks}, len(pd) == len(ks) == len(set(ks))
+
+    def cache_clause(self):
+        got, len_ok = self.shown()
+        return len_ok and _same(got, self.mem), f"mapping shows {got!r}, model {self.mem!r}"
+
+    def disk_clause(self):
+        import zict
+        f = zict.File(self.dir)
+        got = {kk: PersistentDict._load(f[kk]) for kk in f}
+        return _same(got, self.written), f"directory holds {got!r}, last written {self.written!r}"
+
+    def armed_clause(self):
+        """R3 on the real objects"""
+        import weakref
+        pd = self.pd
+        fins = [v for v in vars(pd).values() if isinstance(v, weakref.finalize)]
+        alive = [f for f in fins if f.alive]
+        if not alive:
+            return False, "no alive weakref.finalize on the instance: nothing will be written back at garbage collection"
+        for f in alive:
+            args = f.peek()[2]
+            if not any(a is pd._cache for a in args):
+                return False, "the alive finalizer does not hold the dictionary the instance uses as its cache"
+            if not any(a is pd._file or a is pd._func for a in args):
+                return False, "the alive finalizer does not write to the instance's file store"
+        return True, "write-back armed on the current cache"
+
+    def close(self, mode):
+        """end of the instance: 'gc' = collected (finalizer runs), 'crash' = the process dies (no finalizer)"""
+        import weakref
+        pd = self.pd
+        self.pd = None
+        if mode == "crash":
+            for v in list(vars(pd).values()):
+                if isinstance(v, weakref.finalize):
+                    v.detach()
+        else:
+            self.written = copy.deepcopy(self.mem)
+        del pd
+        gc.collect()
+
+    def reopen(self, mode):
+        self.close(mode)
+        if mode == "crash":
+            self.mem = copy.deepcopy(self.written)
+        self.reloaded = False
+        self.pd = PersistentDict(self.dir)
+
+    def close_clause(self, mode):
+        want = copy.deepcopy(self.mem if mode == "gc" else self.written)
+        self.close(mode)
+        pd2 = PersistentDict(self.dir)
+        got = dict(pd2)
+        ok = _same(got, want) and len(pd2) == len(want)
+        for v in list(vars(pd2).values()):
+            if hasattr(v, "detach"):
+                v.detach()
+        return ok, f"reopened after {mode}: {got!r}, expected {want!r}"
+
+
+CONT_OPS = [["mutate", "a"], ["flush"], ["reset", "a"], ["set", "a"], ["del", "a"], ["set", "c"], ["mutate", "b"], ["pop", "b"]]
+
+
+def _witness(state, prefix, depth=3):
+    """an observable consequence of a broken invariant: a continuation after which the reopened mapping is wrong"""
+    for n in range(0, depth + 1):
+        for cont in itertools.product(CONT_OPS, repeat=n):
+            for mode in ("gc", "crash"):
+                with tempfile.TemporaryDirectory() as d:
+                    try:
+                        m = Machine(d, state)
+                        for op in prefix:
+                            m.apply(op)
+                        skip = False
+                        for op in cont:
+                            if op[0] in ("mutate", "del", "pop", "reset") and op[1] not in m.mem:
+                                skip = True
+                                break
+                            m.apply(op)
+                        if skip:
+                            continue
+                        ok, detail = m.close_clause(mode)
+                    except Exception as e:
+                        return f"{prefix + list(cont)} then {mode}: {type(e).__name__}: {e}"
+                    if not ok:
+                        return f"after {prefix + list(cont)} closed by {mode}: {detail}"
+    return None
+
+
+def step(model, info, art):
+    state, op, clause = info.get("state", {}), info.get("op"), info.get("clause")
+    with tempfile.TemporaryDirectory() as d:
+        try:
+            m = Machine(d, state)
+            if clause == "init":
+                # a new instance on the directory written so far
+                m.reopen("gc")
+                oks = [m.cache_clause(), m.disk_clause(), m.armed_clause()]
+                bad = [t for ok, t in oks if not ok]
+                return ("confirmed", bad[0]) if bad else ("contradicted", "a new instance shows the stored contents and arms the write-back")
+            ok, detail = m.apply(op)
+        except Exception as e:
+            return "confirmed", f"state {state} operation {op}: {type(e).__name__}: {e}"
+        if clause == "op":
+            return ("contradicted", "operation result as a dict's: " + detail) if ok else ("confirmed", detail)
+        if clause == "cache":
+            ok, detail = m.cache_clause()
+        elif clause == "disk":
+            ok, detail = m.disk_clause()
+            if ok and set(m.mem) != set(m.written):
+                ok, detail = False, "model key sets differ"
+        elif clause == "finalizer":
+            ok, detail = m.armed_clause()
+            if not ok:
+                wit = _witness(state, [op])
+                if wit is None:
+                    return "not-constructible", detail + "; no observable consequence found within 3 further operations"
+                return "confirmed", f"state {state}, after {op}: {detail}; observable: {wit}"
+        elif clause == "close":
+            try:
+                ok, detail = m.close_clause(info["close"])
+            except Exception as e:
+                return "confirmed", f"state {state} operation {op} closing {info['close']}: {type(e).__name__}: {e}"
+        else:
+            return "not-constructible", f"unknown clause {clause!r}"
+    return ("contradicted", detail) if ok else ("confirmed", f"state {state}, after {op}: {detail}")
+
+
+def history(model, info, art):
+    state, hist, mode = info.get("state", {}), info.get("history", []), info.get("close")
+    with tempfile.TemporaryDirectory() as d:
+        try:
+            m = Machine(d, state)
+            for i, op in enumerate(hist):
+                ok, detail = m.apply(op)
+                if not ok:
+                    return "confirmed", f"history {hist[:i + 1]}: {detail}"
+            if mode is None:
+                # the symbolic path stopped at an operation's result (e.g. popitem handed out a key that should be gone);
+                # the real dict / listdir order may pick another key: evaluate the obligation's other conjuncts on this
+                # history (what the mapping shows now, what a reopened one shows after either closing)
+                ok, detail = m.cache_clause()
+                if not ok:
+                    return "confirmed", f"state {state}, history {hist}: {detail}"
+                for md in ("gc", "crash"):
+                    with tempfile.TemporaryDirectory() as d2:
+                        m2 = Machine(d2, state)
+                        for op in hist:
+                            m2.apply(op)
+                        ok, detail = m2.close_clause(md)
+                        if not ok:
+                            return "confirmed", f"state {state}, history {hist}: {detail}"
+                return "contradicted", f"history {hist}: every operation behaved like a dict's and the reopened mapping holds the last written contents"
+            ok, detail = m.close_clause(mode)
+        except Exception as e:
+            return "confirmed", f"history {hist} closing {mode}: {type(e).__name__}: {e}"
+    return ("contradicted", f"history {hist}: {detail}") if ok else ("confirmed", f"state {state}, history {hist}: {detail}")
